@@ -297,6 +297,41 @@ def walkLimited : Prog := [
   ⟨["}", "call threading.GoSafe"], .goto 4, true, true⟩,
   ⟨["}", "call wg.Wait", "close pipe", "}", "call func", "}", "call Range", "return"], .halt, false, false⟩ ]
 
+/-- `threading.RoutineGroup`: every thread is a `Wait` call, a `Run` call or a `RunSafe` call (Add BEFORE the
+spawn, `Done` in the spawned function's `defer`).  No semaphore: the cap of `WorkerGroup` is the number of
+`RunSafe` calls its `Start` loop makes (`for i < wg.workers`), see `ReachK`. -/
+def routineGroup : Prog := [
+  ⟨[], .branch 1 3, false, false⟩,
+  ⟨["call g.waitGroup.Wait"], .wgWait, false, false⟩,
+  ⟨[], .goto 16, false, false⟩,
+  ⟨[], .branch 4 10, false, false⟩,
+  -- Run (rows 4..9)
+  ⟨["call g.waitGroup.Add"], .wgAdd, false, false⟩,
+  ⟨["go{", "func{", "defer{"], .goto 8, false, true⟩,
+  ⟨["call g.waitGroup.Done"], .wgDone, false, true⟩,
+  ⟨["}"], .goto 16, false, false⟩,
+  ⟨["call fn"], .user 6, false, true⟩,
+  ⟨["}", "call func", "}"], .goto 6, false, true⟩,
+  -- RunSafe (rows 10..15): the function handed to GoSafe (= go RunSafe: defer rescue.Recover(); fn())
+  ⟨["call g.waitGroup.Add"], .wgAdd, false, false⟩,
+  ⟨["func{", "defer{"], .goto 14, false, true⟩,
+  ⟨["call g.waitGroup.Done"], .wgDone, false, true⟩,
+  ⟨["}"], .goto 16, false, false⟩,
+  ⟨["call fn"], .user 12, false, true⟩,
+  ⟨["}", "call GoSafe"], .goto 12, false, true⟩,
+  ⟨[], .halt, false, false⟩ ]
+
+/-- `syncx.Guard(lock, fn)` / `Barrier.Guard`: a mutex is a limiter of capacity 1 (Lock = acquire,
+deferred Unlock = release). -/
+def barrierGuard : Prog := [
+  ⟨["call lock.Lock"], .acquire, false, false⟩,
+  ⟨["defer{"], .goto 4, true, false⟩,
+  ⟨["call lock.Unlock"], .release, true, false⟩,
+  ⟨["}"], .goto 6, false, false⟩,
+  ⟨["call fn"], .user 2, true, false⟩,
+  ⟨[], .goto 2, true, false⟩,
+  ⟨[], .halt, false, false⟩ ]
+
 /-- what the code would be with the release NOT in a defer (kept to show what the discipline rejects). -/
 def maxConnsNoDefer : Prog := [
   ⟨["if latch.TryBorrow() {"], .tryAcquire 4, false, false⟩,
@@ -307,6 +342,17 @@ def maxConnsNoDefer : Prog := [
   ⟨[], .halt, false, false⟩ ]
 
 end Programs
+
+/-! ## 2b. configuration decision tables -/
+
+/-- `mr.WithWorkers(k)` / `fx.WithWorkers(k)`: `if workers < minWorkers { opts.workers = minWorkers } else
+{ opts.workers = workers }` with `minWorkers = 1`: the capacity of the worker channel. -/
+def effWorkers (k : Int) : Int := if k < 1 then 1 else k
+
+/-- `rest.engine.buildChainWithNativeMiddlewares` + `handler.MaxConnsHandler`: the per-route latch exists iff
+the middleware is switched on and `RestConf.MaxConns > 0`; `none` = no limit at all (pass-through). -/
+def engineCap (mwOn : Bool) (maxConns : Int) : Option Nat :=
+  if mwOn then (if maxConns ≤ 0 then none else some maxConns.toNat) else none
 
 /-! ## 3. `syncx.Pool` -/
 
@@ -345,5 +391,13 @@ def getLoop (limit maxAge now next : Nat) : List PNode → Int → List Nat → 
 def Pool.get (p : Pool) (now : Nat) : Pool × GetResult := getLoop p.limit p.maxAge now p.next p.idle p.created []
 
 def Pool.put (p : Pool) (x : Nat) (now : Nat) : Pool := { p with idle := ⟨x, now⟩ :: p.idle }
+
+/-- `Get` when the `create` callback PANICS (the reuse and wait paths never call it: as in `get`).  On the
+create path `p.created++` has already run; the panic leaves through the deferred `Unlock` and nothing undoes
+the increment: no resource exists, the counter stays.  Third component: did the call panic. -/
+def Pool.getCreatePanics (p : Pool) (now : Nat) : Pool × GetResult × Bool :=
+  match p.get now with
+  | (p', .got item true d) => ({ p' with next := p.next }, .got item true d, true)
+  | (p', res) => (p', res, false)
 
 end GoZero.C05
